@@ -399,6 +399,34 @@ fn level_block<'a>(g: Gen, script: &'a str, path: &[String]) -> Option<&'a str> 
 /// another level is (names are unique across the tree, inherited globals excepted).
 fn level_scoped_checks(g: Gen, spec: &CmdSpec, script: &str) -> Vec<(&'static str, String, String)> {
     let mut bad = Vec::new();
+    if g == Gen::Fish {
+        // fish: one `complete` line per item, guarded by a condition that names the level
+        let lines: Vec<&str> = script.lines().filter(|l| l.starts_with("complete ")).collect();
+        let has = |long: &str, cond: &str| lines.iter().any(|l| contains_token(l, &format!("-l {long}")) && l.contains(cond));
+        for a in spec.args.iter().filter(|a| !a.hide && !a.is_positional()) {
+            if let Some(l) = &a.long {
+                // without subcommands the generator writes unguarded lines
+                let guard = if spec.subs.is_empty() { "" } else { "_needs_command" };
+                if !has(l, guard) {
+                    bad.push(("coverage-missing", "fish/long-at-level".to_string(), format!("--{l} of the root has no `complete` line guarded by the root condition")));
+                }
+            }
+        }
+        for sub in spec.subs.iter().filter(|x| !x.has(CmdSetting::Hide)) {
+            for a in sub.args.iter().filter(|a| !a.hide && !a.is_positional() && !a.global) {
+                if let Some(l) = &a.long {
+                    if !has(l, &format!("_using_subcommand {}", sub.name)) {
+                        bad.push(("coverage-missing", "fish/long-at-level".to_string(), format!("--{l} of `{}` has no `complete` line guarded by `using_subcommand {}`", sub.name, sub.name)));
+                    }
+                    if has(l, "_needs_command") {
+                        bad.push(("coverage-foreign", "fish/long-of-other-level".to_string(), format!("--{l} belongs to `{}` but is offered under the root condition", sub.name)));
+                    }
+                }
+            }
+        }
+        bad.dedup_by(|a, b| a.0 == b.0 && a.1 == b.1);
+        return bad;
+    }
     if !matches!(g, Gen::Elvish | Gen::PowerShell | Gen::Nushell) {
         return bad;
     }
@@ -925,6 +953,74 @@ fn exec_sink(which: Which, sc: &SinkSc, log: &mut Log, out: &mut Outcome) {
                     out.violate("sink-garbage", g.name(), format!("delivered bytes are not a prefix of the reference under {:?}", fired));
                     return;
                 }
+            }
+        }
+    }
+
+    // ---- the individual section renderers of Man go through the same sink contract
+    if g == Gen::Man && man_names.is_empty() {
+        let man = match catch(|| clap_mangen::Man::new(build_cmd(&sc.spec))) {
+            Ok(m) => m,
+            Err(_) => return,
+        };
+        type Sect = fn(&clap_mangen::Man, &mut dyn Write) -> std::io::Result<()>;
+        let mut sections: Vec<(&'static str, Sect)> = vec![
+            ("title", |m, w| m.render_title(w)),
+            ("name", |m, w| m.render_name_section(w)),
+            ("synopsis", |m, w| m.render_synopsis_section(w)),
+            ("description", |m, w| m.render_description_section(w)),
+            ("options", |m, w| m.render_options_section(w)),
+            ("subcommands", |m, w| m.render_subcommands_section(w)),
+            ("extra", |m, w| m.render_extra_section(w)),
+        ];
+        if sc.spec.version.is_some() || sc.spec.long_version.is_some() {
+            sections.push(("version", |m, w| m.render_version_section(w)));
+        }
+        sections.push(("authors", |m, w| m.render_authors_section(w)));
+        let mut concat: Vec<u8> = Vec::new();
+        for (name, f) in &sections {
+            let mut wp = FaultyWriter::new(&perfect);
+            let rp = catch(|| f(&man, &mut wp));
+            let mut wf = FaultyWriter::new(&sc.plan);
+            let rf = catch(|| f(&man, &mut wf));
+            out.steps += 1;
+            out.comparisons += 1;
+            for x in &wf.fired {
+                out.count_dyn(format!("fault.{x}"));
+            }
+            match (rp, rf) {
+                (Err(p), _) | (_, Err(p)) => {
+                    out.violate("panic-in-section-renderer", format!("man/{name}"), format!("render_{name}_section panicked: {} at {}", p.msg, p.loc));
+                    return;
+                }
+                (Ok(rp), Ok(rf)) => {
+                    if rp.is_err() {
+                        out.violate("generator-error-on-perfect-sink", format!("man/{name}"), format!("render_{name}_section failed on a perfect sink"));
+                        return;
+                    }
+                    let only_benign = !wf.hard_fired;
+                    if only_benign && (rf.is_err() || wf.delivered != wp.delivered) {
+                        out.violate("sink-bytes-differ", format!("man/{name}"), format!("render_{name}_section under benign sink faults {:?}: result {:?}, {} of {} bytes delivered", wf.fired, rf.err().map(|e| e.to_string()), wf.delivered.len(), wp.delivered.len()));
+                        return;
+                    }
+                    if !only_benign && rf.is_ok() && wf.fired.iter().any(|f| *f != "flush_error" && *f != "short_write" && *f != "eintr" && *f != "chunk_cap") {
+                        out.violate("sink-error-swallowed", format!("man/{name}"), format!("render_{name}_section: hard sink faults {:?} but Ok", wf.fired));
+                        return;
+                    }
+                    if !wp.delivered.starts_with(&wf.delivered) {
+                        out.violate("sink-garbage", format!("man/{name}"), format!("render_{name}_section delivered bytes that are not a prefix of the reference"));
+                        return;
+                    }
+                    concat.extend_from_slice(&wp.delivered);
+                }
+            }
+        }
+        // every line of the full page comes from one of the section renderers
+        let all = String::from_utf8_lossy(&concat).to_string();
+        for line in ref_text.lines().filter(|l| l.starts_with(".SH")) {
+            if !all.contains(line) {
+                out.violate("nondeterministic-output", "man/sections-vs-page", format!("the page has the heading line {line:?} that no section renderer produces"));
+                return;
             }
         }
     }
